@@ -171,6 +171,17 @@ def Features(cfg):
     f.add('signal' if g['sig'] else 'no-signal')
     if g['sig']:
       f.add('raised' if g['raiseAt'] else 'never-raised')
+      # round (run number of the member) in which the signal file becomes
+      # non-empty; 'pre' = it was written EMPTY in the calls before
+      l = len(g['members'])
+      rnd = (g['raiseAt'] + l - 1) // l
+      if g.get('pre'):
+        f.add('signal-file-empty-then-nonempty-round=%d' % rnd
+              if g['raiseAt'] > 1 else
+              ('signal-file-empty-never-raised' if not g['raiseAt']
+               else 'signal-file-nonempty-at-first-write'))
+      elif g['raiseAt']:
+        f.add('signal-file-appears-nonempty-round=%d' % rnd)
     if any(External(cfg, a) for a in g['members']):
       f.add('group-with-external-input')
     if any(set(cfg['req'][a - 1]) & set(g['members']) for a in g['members']):
